@@ -231,6 +231,10 @@ func mkGenesis(t *sim.Tape) *genesis {
 				prog.xfers = append(prog.xfers, svcXfer{dest: g.svcIDs[(i+1+t.Choose(nSvc-1, "svc_dest"))%nSvc], amt: uint64(1 + t.Choose(20, "svc_amt")), gas: uint64(2000 + 500*t.Choose(3, "svc_tgas"))})
 			}
 		}
+		if t.Prob(1, 2, "svc_cycles_a_preimage") {
+			prog.cycle = []byte(fmt.Sprintf("cycled-preimage-of-%d-%s", id, string(t.Bytes(2, "cycle_blob"))))
+			g.solicited[id] = append(g.solicited[id], prog.cycle) // the author provides it whenever it is solicited and missing
+		}
 		prog.meta = encodeMetaCode(buildSvcProgram(prog, g.svcIDs))
 		prog.codeH = h256(prog.meta)
 		g.programs[id] = prog
